@@ -380,6 +380,16 @@ def replay_real(case):
         back = 2 * np.pi * R @ U @ B @ hkl.value
         if not np.allclose(back, got, rtol=1e-9, atol=1e-9 * np.linalg.norm(got)):
             bad.append(f'2pi R UB hkl = {back} vs Q = {got}')
+        # rotations given as explicit quaternions, incl. exact half turns (real part exactly 0) and a negative real part
+        s_ = 2 ** -0.5
+        for quat in ([0.0, 1.0, 0.0, 0.0], [0.0, 0.0, 1.0, 0.0], [s_, s_, 0.0, 0.0], [0.5, -0.5, 0.5, -0.5], [0.0, 0.6, 0.0, 0.8]):
+            Rq = sc.spatial.rotation(value=quat)
+            Rm = Rotation.from_quat(quat).as_matrix()
+            hq = rt.hkl_vec_from_Q_vec(Q_vec=qv, ub_matrix=ub, sample_rotation=Rq)
+            back = 2 * np.pi * Rm @ U @ B @ hq.value
+            if not np.allclose(back, got, rtol=1e-9, atol=1e-9 * np.linalg.norm(got)):
+                bad.append(f'sample rotation given as the quaternion {quat}: 2pi R UB hkl = {back} vs Q = {got}')
+                break
         # one rotation per scan point (array-valued sample_rotation)
         Rs = [Rotation.random(random_state=rng.integers(1 << 30)) for _ in range(3)]
         Rarr = sc.spatial.rotations_from_rotvecs(sc.vectors(dims=['scan'], values=[r_.as_rotvec() for r_ in Rs], unit='rad'))
